@@ -39,7 +39,9 @@ const connectionRefusedFmt = "Socket file %s exists but refuses requests. This i
 func Activate(stderr io.Writer, spawnCfg *daemondefs.SpawnConfig) (daemondefs.Client, error) {
 	sockpath := spawnCfg.SockPath
 	cl := NewClient(sockpath)
+	verifPause("a-start", sockpath, 0)
 	status, err := detectDaemon(sockpath, cl)
+	verifPause("a-detect", sockpath, int(status))
 	shouldSpawn := false
 
 	switch status {
@@ -50,6 +52,7 @@ func Activate(stderr io.Writer, spawnCfg *daemondefs.SpawnConfig) (daemondefs.Cl
 		return cl, fmt.Errorf("socket file %s inaccessible: %w", sockpath, err)
 	case connectionRefused:
 		fmt.Fprintf(stderr, connectionRefusedFmt, sockpath)
+		verifPause("a-remove", sockpath, 0)
 		err := os.Remove(sockpath)
 		if err != nil {
 			return cl, fmt.Errorf("failed to remove socket file: %w", err)
@@ -72,6 +75,7 @@ func Activate(stderr io.Writer, spawnCfg *daemondefs.SpawnConfig) (daemondefs.Cl
 		return cl, nil
 	}
 
+	verifPause("a-spawn", sockpath, 0)
 	err = spawn(spawnCfg)
 	if err != nil {
 		return cl, fmt.Errorf("failed to spawn daemon: %w", err)
@@ -82,6 +86,7 @@ func Activate(stderr io.Writer, spawnCfg *daemondefs.SpawnConfig) (daemondefs.Cl
 	for time.Since(start) < daemonSpawnTimeout {
 		cl.ResetConn()
 		status, err := detectDaemon(sockpath, cl)
+		verifPause("a-poll", sockpath, int(status))
 
 		switch status {
 		case daemonOK:
@@ -207,6 +212,7 @@ func spawn(cfg *daemondefs.SpawnConfig) error {
 	defer out.Close()
 
 	procattrs := procAttrForSpawn([]*os.File{in, out, out})
+	verifSpawnEnv(procattrs)
 
 	err = startProcess(binPath, args, procattrs)
 	return err
